@@ -118,12 +118,19 @@ CLAIMED = {
         technique="contract-based symbolic execution of the real code over bounded structures (bounded stand-in) incl. a relational two-run contract, obligations discharged by z3 (cvc5 for unknowns)",
         design="3/C16",
     ),
+    "C10": dict(
+        category="other",
+        text="BOUNDED (not an unbounded proof), on the C09 harness: the real Tracker (from_config, track, get_features, update_candidates, get_scores, scores_to_cost_matrix, assign_tracks, both candidate classes, hungarian and greedy matching) is symbolically executed from its initial state through every admissible scene of up to 2 animals over up to 3 frames with window 1 (thorough: window 2, up to 4 frames for Hungarian): every presence pattern the property allows (a newcomer only while every known animal is detected; absences shorter than the window) and every detection order. Separation is formalised on the association scores: every same-animal score >= hi, every different-animal score <= lo, lo < hi symbolic; detection scores above the new-track threshold. Per scene: every detection is tracked, each animal carries one track name on all frames in which it is detected, no two animals ever hold the same name.",
+        note="feature extraction and the three scoring functions are abstracted (the hypothesis 'far apart compared with how far they move' is ASSUMED to yield separated association scores; that step is not decided); no inductive invariant over arbitrary tracker states; scipy linear_sum_assignment under a trusted contract.",
+        technique="contract-based symbolic execution of the real code over bounded histories (bounded stand-in), obligations discharged by z3",
+        design="3/C10",
+    ),
 }
 
 NOT_APPLICABLE = {
     "C19": "no pre/postcondition on a function of this repository expresses it: training completion, artifacts and crash-point file contents live in Lightning/wandb/OmegaConf and the file system (DESIGN.md section 5)",
 }
-NOT_BUILT = ["C03", "C10", "C14"]
+NOT_BUILT = ["C03", "C14"]
 
 
 def main():
